@@ -60,11 +60,13 @@ Qed.
 Lemma cgood_weaken s0 s m : same_ud s0 s -> cgood s m -> cgood s0 m.
 Proof. intros H. destruct m as [[s' o]| |]; auto. intros Hm c. destruct (H c), (Hm c). lia. Qed.
 
-Ltac ud_same := intros; repeat match goal with
-  | |- context [chan_update ?r ?k ?w ?d] =>
-      let F := fresh "F" in pose proof (chan_update_fields r k w d) as F; cbv zeta in F;
-      destruct F as (_ & _ & _ & _ & _ & _ & _ & _ & _ & _ & _ & _ & ?FU & ?FD & _); rewrite ?FU, ?FD
-  end; cbn [set_life set_own set_rflag set_fin set_chan kill k_ups k_downs unmapped]; auto.
+Lemma cu_ups r k w d : k_ups (chan_update r k w d) = k_ups k.
+Proof. pose proof (chan_update_fields r k w d) as F. cbv zeta in F. apply F. Qed.
+Lemma cu_downs r k w d : k_downs (chan_update r k w d) = k_downs k.
+Proof. pose proof (chan_update_fields r k w d) as F. cbv zeta in F. apply F. Qed.
+
+Ltac ud_same := intros; cbn [set_life set_own set_rflag set_fin set_chan kill k_ups k_downs unmapped];
+  rewrite ?cu_ups, ?cu_downs; cbn [set_life set_own set_rflag set_fin set_chan kill k_ups k_downs unmapped]; auto.
 
 (* one connection's counters move by one together with the observation *)
 Lemma cgood_put_obs s c k k' x du dd :
@@ -330,8 +332,9 @@ Theorem S02_counted : forall strict nio readd ops s obs, run strict (init_sys ni
   forall c, cntU c obs = upsof s c /\ cntD c obs = downsof s c.
 Proof.
   intros strict nio readd ops s obs H c. pose proof (cgood_run strict ops (init_sys nio readd)) as Hg. rewrite H in Hg.
-  destruct (Hg c) as [A B]. unfold upsof, downsof in A, B at 2. unfold getc in A, B at 2. cbn in A, B.
-  destruct c; cbn in A, B; lia.
+  destruct (Hg c) as [A B].
+  assert (Z : upsof (init_sys nio readd) c = 0 /\ downsof (init_sys nio readd) c = 0) by (unfold upsof, downsof, getc; cbn; destruct c; auto).
+  destruct Z as [Z1 Z2]. lia.
 Qed.
 
 (* exactly one UP, at most one DOWN, DOWN exactly when closed - for every connection of every run
